@@ -1181,7 +1181,7 @@ enum
     R_COUNT
 };
 static size_t rand_maxlen() { return vf::thorough() ? 96 : 44; }
-static uint64_t rand_count() { return (uint64_t)R_COUNT * (vf::thorough() ? 2500 : 40); }
+static uint64_t rand_count() { return (uint64_t)R_COUNT * (vf::thorough() ? 12000 : 150); }
 static void rand_run(uint64_t idx)
 {
     int g = (int)(idx % R_COUNT);
